@@ -12,6 +12,7 @@ import (
 	"os"
 	"path/filepath"
 	"sync"
+	"time"
 	"syscall"
 
 	"github.com/spf13/afero"
@@ -41,7 +42,7 @@ func (s *strictFs) arm(t *writeTrick) {
 func (s *strictFs) take(name string) *writeTrick {
 	s.mu.Lock()
 	defer s.mu.Unlock()
-	if s.trick != nil && s.trick.path == name {
+	if s.trick != nil && s.trick.path == filepath.Clean(name) {
 		t := s.trick
 		s.trick = nil
 		return t
@@ -72,6 +73,23 @@ func (f *strictFile) Write(p []byte) (int, error) {
 
 func (f *strictFile) WriteString(str string) (int, error) { return f.Write([]byte(str)) }
 
+// abs: the in-memory back end has no notion of a working directory ("x" and "/x" are different files there); like a
+// process whose working directory is the root, relative names are resolved against "/".
+func abs(name string) string {
+	if !filepath.IsAbs(name) {
+		return "/" + name
+	}
+	return name
+}
+
+func (s *strictFs) Stat(name string) (os.FileInfo, error) { return s.Fs.Stat(abs(name)) }
+func (s *strictFs) Open(name string) (afero.File, error)  { return s.Fs.Open(abs(name)) }
+func (s *strictFs) Chmod(name string, m os.FileMode) error { return s.Fs.Chmod(abs(name), m) }
+func (s *strictFs) Chown(name string, u, g int) error      { return s.Fs.Chown(abs(name), u, g) }
+func (s *strictFs) Chtimes(name string, a, m time.Time) error {
+	return s.Fs.Chtimes(abs(name), a, m)
+}
+
 func (s *strictFs) check(name string, flag int) error {
 	if flag&(os.O_CREATE|os.O_WRONLY|os.O_RDWR|os.O_TRUNC|os.O_APPEND) == 0 {
 		return nil
@@ -88,6 +106,7 @@ func (s *strictFs) check(name string, flag int) error {
 }
 
 func (s *strictFs) Create(name string) (afero.File, error) {
+	name = abs(name)
 	s.mu.Lock()
 	defer s.mu.Unlock()
 	if err := s.check(name, os.O_RDWR|os.O_CREATE|os.O_TRUNC); err != nil {
@@ -101,6 +120,7 @@ func (s *strictFs) Create(name string) (afero.File, error) {
 }
 
 func (s *strictFs) OpenFile(name string, flag int, perm os.FileMode) (afero.File, error) {
+	name = abs(name)
 	s.mu.Lock()
 	defer s.mu.Unlock()
 	if err := s.check(name, flag); err != nil {
@@ -114,6 +134,7 @@ func (s *strictFs) OpenFile(name string, flag int, perm os.FileMode) (afero.File
 }
 
 func (s *strictFs) Mkdir(name string, perm os.FileMode) error {
+	name = abs(name)
 	s.mu.Lock()
 	defer s.mu.Unlock()
 	if fi, err := s.Fs.Stat(filepath.Dir(name)); err != nil || !fi.IsDir() {
@@ -123,24 +144,28 @@ func (s *strictFs) Mkdir(name string, perm os.FileMode) error {
 }
 
 func (s *strictFs) MkdirAll(name string, perm os.FileMode) error {
+	name = abs(name)
 	s.mu.Lock()
 	defer s.mu.Unlock()
 	return s.Fs.MkdirAll(name, perm)
 }
 
 func (s *strictFs) Remove(name string) error {
+	name = abs(name)
 	s.mu.Lock()
 	defer s.mu.Unlock()
 	return s.Fs.Remove(name)
 }
 
 func (s *strictFs) RemoveAll(name string) error {
+	name = abs(name)
 	s.mu.Lock()
 	defer s.mu.Unlock()
 	return s.Fs.RemoveAll(name)
 }
 
 func (s *strictFs) Rename(a, b string) error {
+	a, b = abs(a), abs(b)
 	s.mu.Lock()
 	defer s.mu.Unlock()
 	return s.Fs.Rename(a, b)
